@@ -133,6 +133,35 @@ func init() {
 			return 0, 0
 		}
 		moneyOff, moneySz := fieldOff("Money")
+		levelOff, levelSz := fieldOff("UserLevel")
+		// bytes that encoding/binary does not round-trip: a bool is read as (byte != 0) and written as 0/1
+		var boolOffs []string
+		var walk func(t types.Type, base int64)
+		walk = func(t types.Type, base int64) {
+			switch u := t.Underlying().(type) {
+			case *types.Basic:
+				if u.Kind() == types.Bool {
+					boolOffs = append(boolOffs, fmt.Sprint(base))
+				}
+			case *types.Array:
+				esz := sizes.Sizeof(u.Elem())
+				for i := int64(0); i < u.Len(); i++ {
+					walk(u.Elem(), base+i*esz)
+				}
+			case *types.Struct:
+				fs := make([]*types.Var, u.NumFields())
+				for i := range fs {
+					fs[i] = u.Field(i)
+				}
+				os := sizes.Offsetsof(fs)
+				for i, f := range fs {
+					walk(f.Type(), base+os[i])
+				}
+			default:
+				fatal("ptttype.UserecRaw: field type %v is not a fixed-size value", t)
+			}
+		}
+		walk(tn.Type(), 0)
 		recSize := sizes.Sizeof(tn.Type())
 
 		// ---- passwdUpdateMoney: which field, which stride, which encoding -----------------
@@ -216,6 +245,9 @@ func init() {
 		lf.nat("recSize", recSize)
 		lf.nat("moneyOffset", moneyOff)
 		lf.nat("moneySize", moneySz)
+		lf.nat("userLevelOffset", levelOff)
+		lf.nat("userLevelSize", levelSz)
+		lf.natList("boolOffsets", boolOffs)
 		lf.raw("\n/- cache.passwdUpdateMoney -/\n")
 		lf.raw(fmt.Sprintf("def writtenField : String := %q\n", writtenField))
 		lf.nat("writtenOffset", writtenOff)
